@@ -435,6 +435,9 @@ def main(ctx):
     # both directions at once, with windows (Lifecycle with flow control):
     # nothing written is lost when EOF / CLOSE / WINDOW_ADJUST cross
     cc.duplex_flow(ctx, 'C07', quick, DUPLEX, ctx.seed + 29)
+    # the same on a connection that re-keys all along (packets held back
+    # while an exchange runs must leave afterwards in the order written)
+    cc.natural_rekey(ctx, 'C07', quick)
     ctx.assumptions += [
         'one data unit of the model = one byte (x1) or 1024 bytes (x1k)',
         'writer = server session channel, reader = client session channel; '
